@@ -87,7 +87,7 @@ def scenario(ctx, trace, run_id, sw, ww, rnd, nops, max_offers=3, rst_closes=Tru
             trace.append({"ev": "scrape", "c": [fc.name, 0], "fam": fam, "hs": [1, 2, 17],
                           "out": [abstract_frame(m, n) for n, m in got]})
         if not t.alive():
-            raise ToolError("WebTorrent tracker died during the scenario: " + t.stderr()[-400:])
+            trace.append({"ev": "tracker_died", "stderr": t.stderr()[-600:]})
     finally:
         for c in clients.values():
             c.close()
